@@ -55,16 +55,16 @@ theorem xattr_spec (s : Strategy) (sel : Bytes → Bool) (set : Option (Bytes ×
   rw [entriesOf_transform _ _ (respects_xattr sel set rm), ← filterMap_some_map]
   congr 1; funext e; simp only [xattrF]; split <;> rfl
 
-theorem strip_spec (s : Strategy) (o : StripOpts) (a : Archive) :
-    (entriesOf (transform s (stripF o) a)).map (fun e => (e.name, e.kind, e.data, e.rawSize))
+theorem strip_spec (s : Strategy) (sel : Bytes → Bool) (o : StripOpts) (a : Archive) :
+    (entriesOf (transform s (stripF sel o) a)).map (fun e => (e.name, e.kind, e.data, e.rawSize))
       = (writtenOf s a).map (fun e => (e.name, e.kind, e.data, e.rawSize)) ∧
-    (entriesOf (transform s (stripF o) a)).length = (entriesOf a).length := by
-  rw [entriesOf_transform _ _ (respects_strip o)]
-  have : (writtenOf s a).filterMap (stripF o) = (writtenOf s a).map (fun e => (stripF o e).getD e) := by
-    rw [← filterMap_some_map]; congr 1
+    (entriesOf (transform s (stripF sel o) a)).length = (entriesOf a).length := by
+  rw [entriesOf_transform _ _ (respects_strip sel o)]
+  have : (writtenOf s a).filterMap (stripF sel o) = (writtenOf s a).map (fun e => (stripF sel o e).getD e) := by
+    rw [← filterMap_some_map]; congr 1; funext e; simp only [stripF]; split <;> rfl
   rw [this]
   constructor
-  · rw [List.map_map]; congr 1
+  · rw [List.map_map]; congr 1; funext e; simp only [Function.comp, stripF]; split <;> rfl
   · have := congrArg List.length (written_content s a)
     simpa using this
 
@@ -130,14 +130,24 @@ theorem chmod_idem (s : Strategy) (sel : Bytes → Bool) (m : Mode) (a : Archive
   · rename_i hs
     simp only [Option.some.injEq] at h; subst h; simp [hs]
 
-theorem strip_idem (s : Strategy) (o : StripOpts) (a : Archive) :
-    entriesOf (transform s (stripF o) (transform s (stripF o) a)) = entriesOf (transform s (stripF o) a) := by
-  apply transform_idem _ _ (respects_strip o)
+theorem strip_idem (s : Strategy) (sel : Bytes → Bool) (o : StripOpts) (a : Archive) :
+    entriesOf (transform s (stripF sel o) (transform s (stripF sel o) a)) = entriesOf (transform s (stripF sel o) a) := by
+  apply transform_idem _ _ (respects_strip sel o)
   intro e e' h
-  simp only [stripF, Option.some.injEq] at h ⊢
-  subst h
-  simp only [List.filter_filter, Bool.and_self]
-  cases o.keepPermission <;> cases o.keepTimestamp <;> cases o.keepXattr <;> rfl
+  by_cases hs : sel e.name = true
+  · simp only [stripF, hs, Bool.not_true, Bool.false_eq_true, if_false, Option.some.injEq] at h ⊢
+    subst h
+    simp only [hs, Bool.not_true, Bool.false_eq_true, if_false, List.filter_filter, Bool.and_self]
+    cases o.keepPermission <;> cases o.keepTimestamp <;> cases o.keepXattr <;> rfl
+  · have hs2 : sel e.name = false := by simpa using hs
+    simp only [stripF, hs2, Bool.not_false, if_true, Option.some.injEq] at h ⊢
+    subst h
+    simp only [hs2, Bool.not_false, if_true]
+
+/-- **strip touches only what the command line names**: an entry the patterns do not select is handed on as it is. -/
+theorem strip_unselected_untouched (sel : Bytes → Bool) (o : StripOpts) (e : LEntry) (h : sel e.name = false) :
+    stripF sel o e = some e := by
+  simp [stripF, h]
 
 -- non-vacuity: chmod g-w on one selected and one unselected entry
 example : entriesOf (transform .unsolid (chmodF (fun n => n == [97]) (.minus 2 2))
